@@ -489,6 +489,43 @@ def run_case(ctx, G, backend, label):
                         % (len(checked) if checked is not None else counters["count-objects-checked"], counters["count-objects-checked"], len(stored)),
                         case=case, expected=len(stored), observed=counters["count-objects-checked"])
 
+    # ---- overlapping deep operations on the SAME root node object (real grid only: there the walks are asynchronous
+    #      and interleave; a gateway does this when a manifest and a deep-stats of one directory are started together)
+    if getattr(backend, "asynchronous", False):
+        ops = [("manifest", root.build_manifest), ("deep-stats", root.start_deep_stats), ("deep-check", root.start_deep_check)]
+        order = ctx.rng("overlap-order", label).sample(ops, 3)
+        started = [(name, start()) for name, start in order]            # all started before any is waited for
+        got_overlap = {name: backend.finish(mon) for name, mon in started}
+        ocase = dict(case, phase="overlapping", start_order=[name for name, _ in order])
+        o_manifest = [(tuple(p), c) for (p, c) in got_overlap["manifest"]["manifest"]]
+        o_objs = set(cap2view[c][0] for _, c in o_manifest if c in cap2view)
+        missing = [i for i in reach_objs if i not in o_objs]
+        if missing:
+            ctx.oracle_fail("overlapping-deep-operations:reachable-object-not-visited",
+                            "build_manifest started together with deep-stats and deep-check on the same root node (order %r) misses %d of %d reachable "
+                            "objects: %r" % (ocase["start_order"], len(missing), len(reach_objs), [(i, G.objects[i]["kind"]) for i in missing][:8]),
+                            case=ocase, expected=len(reach_objs), observed=len(o_objs))
+        elif o_manifest != manifest:
+            ctx.oracle_fail("overlapping-deep-operations:manifest-differs-from-sequential",
+                            "build_manifest overlapping with other deep operations reports %d entries, alone %d" % (len(o_manifest), len(manifest)),
+                            case=ocase, expected=[[list(p), c.decode("latin-1")] for p, c in manifest][:40],
+                            observed=[[list(p), c.decode("latin-1")] for p, c in o_manifest][:40])
+        o_dres = got_overlap["deep-check"]
+        for which, st, alone in (("deep-stats", got_overlap["deep-stats"], stats), ("manifest-stats", got_overlap["manifest"]["stats"], res["stats"]),
+                                 ("deep-check-stats", o_dres.get_stats(), dstats)):
+            o_counts = {k: st[k] for k in want_stats}
+            reference = want_stats if not multi else {k: alone[k] for k in want_stats}     # ground truth; with once-per-link objects: the walk alone
+            if o_counts != reference or dict(st) != dict(alone):
+                ctx.oracle_fail("overlapping-deep-operations:stats-differ-from-reachable-objects",
+                                "%s overlapping with other deep operations on the same root node (order %r) counts %r; reachable distinct objects per "
+                                "kind %r, the same operation alone %r" % (which, ocase["start_order"], o_counts, want_stats, {k: alone[k] for k in want_stats}),
+                                case=ocase, expected=want_stats, observed=o_counts)
+        if o_dres.get_counters() != counters:
+            ctx.oracle_fail("overlapping-deep-operations:deep-check-counters-differ",
+                            "deep-check overlapping with other deep operations checks %r, alone %r (%d reachable stored objects)"
+                            % (o_dres.get_counters(), counters, len(stored)), case=ocase, expected=counters, observed=o_dres.get_counters())
+        ctx.count("overlapping-deep-operations")
+
     # ---- model term -----------------------------------------------------------------
     sizes = backend.sizes(G)
     g_term, ids = G.coq_graph(sizes)
@@ -702,7 +739,7 @@ def run(ctx):
         do(Graph(spec), MemBackend(), label, "hand")
     # 3. generated graphs
     profiles = ["tree", "dag", "cyclic", "twins", "lit", "multilink", "immutable", "dag", "cyclic", "twins"]
-    n = ctx.n(120, 1500)
+    n = ctx.n(100, 1500)
     for i in range(n):
         r = ctx.rng("graph", i)
         profile = profiles[i % len(profiles)]
@@ -783,6 +820,7 @@ class GridBackend(object):
     uploads, real mutable files and directories, links made with set_uri /
     set_node; nothing of the traversal or of the nodes is replaced."""
     name = "grid"
+    asynchronous = True
 
     def __init__(self, seed=0):
         from core import grid as GR
